@@ -170,6 +170,45 @@ VerifyRangeAlg(proof, rangeRoots, s, e, n, root) ==
            st3 == InsertRange([acc |-> acc2, proof |-> st1.proof], e, INF)
        IN AccRoot(st3.acc) = root
 
+(* ---- rhp/v2: RangeProofVerifier, the streaming verifier (NewRangeProofVerifier +
+   ReadFrom + Verify; rhp/v4 re-exports it).  ns = leaves per sector (code: 65536).
+   The stream is the sequence of the leaf hashes of the whole leaves the reader
+   delivers (a trailing partial leaf makes ReadFrom fail: no verdict "accept").
+   ReadFrom walks the subtrees of the CLAIMED range and records, for every one of
+   them, ReaderRoot of the at most subtreeSize leaves the stream still has: the
+   plain root of those leaves, the zero hash when the stream is exhausted.  It
+   never reads more than e - s leaves.  Verify inserts the left proof hashes,
+   the recorded roots at the heights of the walk, the right proof hashes.       *)
+ReaderRootOf(q) == Root(q, 0, Len(q))
+RECURSIVE StreamRoots(_, _, _)
+StreamRoots(q, i, j) ==
+  IF ~(i < j) THEN <<>>
+  ELSE LET sz == NextSubtreeSize(i, j)
+           take == IF Len(q) < sz THEN Len(q) ELSE sz
+       IN <<ReaderRootOf(SubSeq(q, 1, take))>> \o StreamRoots(SubSeq(q, take + 1, Len(q)), i + sz, j)
+VerifyStreamAlg(proof, stream, s, e, ns, root) ==
+  IF Len(proof) # RangeProofSize(ns, s, e) THEN FALSE
+  ELSE LET st1 == InsertRange([acc |-> Empty, proof |-> proof], 0, s)
+           st2 == InsertRange([acc |-> st1.acc, proof |-> StreamRoots(stream, s, e)], s, e)
+           st3 == InsertRange([acc |-> st2.acc, proof |-> st1.proof], e, ns)
+       IN AccRoot(st3.acc) = root
+\* The range-proof model's verdict for a streaming verification against the true
+\* root of the sector L: accept exactly when the proof is the honest proof of the
+\* claimed range [s,e) and the first e - s leaves of the stream (all it may read)
+\* are the honest leaves s..e-1.  An altered start or end, a stream that ends
+\* early, a foreign leaf among those read, any other proof: reject.  Leaves
+\* behind the claimed range are not read and do not matter.
+StreamHonest(L, ns, proof, stream, s, e) ==
+  /\ proof = ProofDef(L, 0, ns, s, e)
+  /\ Len(stream) >= e - s
+  /\ SubSeq(stream, 1, e - s) = SubSeq(L, s + 1, e)
+\* The same verdict by position arithmetic, for the streams used at sector level
+\* (where sequences of 65536 leaves are not built): the stream is cut from the
+\* sector itself, nl whole leaves from leaf ds on (pairwise different leaves), and
+\* the proof is the honest proof of [ps,pe).  MerkleStream checks that this IS
+\* StreamHonest on every such stream of the small sector.
+StreamCutHonest(ps, pe, ds, nl, s, e) == ps = s /\ pe = e /\ ds = s /\ nl >= e - s
+
 (* ---- rhp/v2: sectorsChanged, BuildDiffProof, DiffProofSize ---- *)
 RECURSIVE ChangedSet(_, _, _, _)
 ChangedSet(as, k, newN, S) ==
